@@ -1,5 +1,6 @@
 import ChfVerif.Lemmas.Abmf
 import ChfVerif.Spec.AbmfSpec
+import ChfVerif.Gen.AbmfServer
 /-
   C07 — account-balance server arithmetic.
 
@@ -319,5 +320,60 @@ theorem C07_model_holds (st : Store) (c : CCR) :
           intro h0; exact hnn hres' h0
         · simp [hres']
       · simp [hadm]
+
+/-! ### requests for one account arriving on several connections at once
+
+  go-diameter serves every connection in a task of its own, so `handleCCR` runs concurrently with itself.  The theorems
+  above are about `handleCCR` as ONE step per request; the regenerated source fact below is what makes the real handler
+  such a step for requests of the same account: the store read and the store write happen while a lock taken before
+  the read — built from the subscriber and the rating group — is held until the handler returns.  Every interleaving
+  of the connections' requests is then SOME list of such steps, and the statements below hold for every list. -/
+
+/-- the read-modify-write of an account is bracketed by a per-account lock held to the end of the handler -/
+theorem C07_account_step_atomic :
+    Gen.abmfServer.lockBeforeRead = true ∧ Gen.abmfServer.heldToReturn = true ∧ Gen.abmfServer.perAccount = true ∧
+    Gen.abmfServer.readsAndWrites = true := by decide
+
+/-- the grants the server answers along a list of requests -/
+def grantsSum (st : Store) : List CCR → Nat
+  | [] => 0
+  | c :: r =>
+    (match (handleCCR st c).2 with
+     | .answer _ _ _ (some g) _ => g
+     | _ => 0) + grantsSum (handleCCR st c).1 r
+
+/-- a reservation (INITIAL/UPDATE, DIRECT_DEBITING) of at most 2^63-1 for the account (ue, rg) -/
+def IsReservationFor (ue : Bytes) (rg : Nat) (c : CCR) : Prop :=
+  subscriberId c = ue ∧ c.rg = rg ∧ c.action = 0 ∧ (c.reqType = 1 ∨ c.reqType = 2) ∧ c.rsu < 9223372036854775808
+
+/-- C07 for any number of reservations of one account in ANY order (hence for every interleaving of the requests of any
+    number of connections): the grants add up to exactly what the balance went down by, and the balance never goes
+    below zero — nothing is granted twice, nothing is lost. -/
+theorem C07_concurrent_reservations (ue : Bytes) (rg : Nat) (cs : List CCR) :
+    ∀ (st : Store) (q : Quota) (b : Int), find st ue rg = some q → q.parse = some b → 0 ≤ b → b < 9223372036854775808 →
+      (∀ c ∈ cs, IsReservationFor ue rg c) →
+      ∃ (q' : Quota) (b' : Int), find (run st cs) ue rg = some q' ∧ q'.parse = some b' ∧ 0 ≤ b' ∧
+        (grantsSum st cs : Int) = b - b' := by
+  induction cs with
+  | nil =>
+    intro st q b hf hp h0 _ _
+    exact ⟨q, b, hf, hp, h0, by simp [grantsSum]⟩
+  | cons c r ih =>
+    intro st q b hf hp h0 h1 hall
+    obtain ⟨hs, hrg, ha, ht, hr⟩ := hall c (by simp)
+    have hf' : find st (subscriberId c) c.rg = some q := by rw [hs, hrg]; exact hf
+    obtain ⟨g, hrep, hg, hfind, hnn⟩ := C07_reserve hf' hp ha ht hr h0 h1
+    rw [hs, hrg] at hfind
+    have hlt : b - (g : Int) < 9223372036854775808 := by omega
+    obtain ⟨q', b', e1, e2, e3, e4⟩ := ih (handleCCR st c).1 (.num (b - g)) (b - g) hfind rfl hnn hlt
+      (fun x hx => hall x (by simp [hx]))
+    refine ⟨q', b', e1, e2, e3, ?_⟩
+    simp only [grantsSum, hrep]
+    omega
+
+/-- non-vacuity: three connections' reservations of 60 against a balance of 100, in some interleaving: 100 granted in all -/
+example :
+    let c : Nat → CCR := fun k => { sess := [], reqType := 2, reqNum := k, action := 0, subType := 1, subData := [49], rg := 1, rsu := 60, usu := 0 }
+    grantsSum [{ ue := [105, 109, 115, 105, 45, 49], rg := 1, quota := .num 100 }] [c 0, c 1, c 2] = 100 := by decide
 
 end Chf.Props.C07
